@@ -27,10 +27,10 @@ RULE = ('generated base configurations x null perturbations {sampling-only inter
 TRUSTED = ['sc.search naming of distributions by attribute path (validated on every run: real registries are compared with the model)']
 ASSUMPTIONS = ['Owns / Ignores (which components a function writes / reads) are hypotheses of the frame theorems; the correspondence and the differential oracle test them on the perturbation families']
 
-FAMS = ['random', 'normal', 'expon', 'bernoulli', 'poisson', 'uniform', 'lognorm_ex', 'randint', 'weibull']
+FAMS = ['random', 'normal', 'expon', 'bernoulli', 'poisson', 'uniform', 'lognorm_ex', 'randint', 'weibull', 'gamma', 'histogram']
 
 
-def make_ghost(kind, fams, name, hold_ref=False):
+def make_ghost(kind, fams, name, hold_ref=False, reset_pars=False, in_pars=False, own_dt=None):
     """ A sampling-only intervention / analyzer / connector: reads state, draws from its own dists, writes nothing shared.
         With hold_ref it keeps references to the modules it reads (a common way to write a read-only component). """
     import starsim as ss
@@ -43,6 +43,9 @@ def make_ghost(kind, fams, name, hold_ref=False):
             self.mine = [getattr(ss, f)(**impl.DIST_PARS[f]) for f in fams]
             self.seen = 0
             self.hold_ref = hold_ref
+            self.reset_pars = reset_pars
+            if in_pars:      # a component that declares a distribution among its parameters
+                self.define_pars(p_sample=ss.bernoulli(p=0.3), dur_mine=ss.dur(3))
         def init_pre(self, sim):
             super().init_pre(sim)
             if self.hold_ref:
@@ -53,18 +56,25 @@ def make_ghost(kind, fams, name, hold_ref=False):
             ppl = self.sim.people
             au = ppl.auids
             for i, d in enumerate(self.mine):
+                if self.reset_pars and self.fams[i] not in ('histogram', 'choice', 'random', 'rand_raw'):
+                    d.set(**impl.DIST_PARS[self.fams[i]])      # time-varying parameters: set before every draw (here: same values)
                 d.rvs(au if i % 2 == 0 else au[: max(1, len(au) // 3)])
+            if 'p_sample' in self.pars:
+                self.pars.p_sample.rvs(au)
             for dis in self.sim.diseases():
                 if hasattr(dis, 'infected'):
                     self.seen += int(np.count_nonzero(dis.infected))   # only reads
-    return Ghost(fams, name=name)
+    kw = dict(name=name)
+    if own_dt is not None: kw['dt'] = own_dt
+    return Ghost(fams, **kw)
 
 
 BASE_VX = dict(type='sir_vx', prob=0.4, efficacy=0.6, leaky=True, name='vxmain')
 
 
 def gen_base(rng):
-    cfg = impl.gen_sim_config(rng, small=True, allow_global_readers=False)
+    # (bases may contain modules that read the global NumPy generator: a null component must not touch that stream either)
+    cfg = impl.gen_sim_config(rng, small=True, allow_global_readers=rng.random() < 0.5)
     if rng.random() < 0.35 and cfg.get('unit') == 'year' and cfg.get('dt') in (1.0, 0.5, 0.25) and float(cfg['start']).is_integer():
         # a base with a real vaccination programme against `sir`
         cfg['diseases'] = [dict(type='sir', beta=0.3, init_prev=0.1, dur_inf=5, p_death=0)] + [d for d in cfg['diseases'] if d['type'] != 'sir']
@@ -84,6 +94,10 @@ def gen_pert(rng, cfg):
         p['name'] = rng.choice(['ghost', 'zz_probe', 'a_probe'])
         p['second'] = rng.random() < 0.3      # add two of them
         p['hold_ref'] = rng.random() < 0.6    # keeps references to the modules it reads
+        p['reset_pars'] = rng.random() < 0.5  # calls dist.set(...) before every draw
+        p['in_pars'] = rng.random() < 0.5     # declares a distribution / a duration among its own parameters
+        p['own_dt'] = rng.choice([None, None, 2.0, 0.5]) if cfg.get('unit') == 'year' else None   # its own timestep (multiple of the sim's)
+        if p['own_dt']: p['own_dt'] = p['own_dt'] * cfg['dt']
     elif kind == 'extra_disease':
         p['type'] = rng.choice(['sis', 'sir'])
         p['name'] = rng.choice(['ghostdis', 'aaa', 'zzz'])
@@ -104,12 +118,12 @@ def build(cfg, pert=None):
     if pert:
         k = pert['kind']
         if k == 'ghost_intervention':
-            ei.append(make_ghost('intervention', pert['fams'], pert['name'], pert.get('hold_ref')))
-            if pert.get('second'): ei.append(make_ghost('intervention', pert['fams'][::-1], pert['name'] + '2', pert.get('hold_ref')))
+            ei.append(make_ghost('intervention', pert['fams'], pert['name'], pert.get('hold_ref'), pert.get('reset_pars'), pert.get('in_pars'), pert.get('own_dt')))
+            if pert.get('second'): ei.append(make_ghost('intervention', pert['fams'][::-1], pert['name'] + '2', pert.get('hold_ref'), pert.get('reset_pars'), pert.get('in_pars'), pert.get('own_dt')))
         elif k == 'ghost_analyzer':
-            ea.append(make_ghost('analyzer', pert['fams'], pert['name'], pert.get('hold_ref')))
+            ea.append(make_ghost('analyzer', pert['fams'], pert['name'], pert.get('hold_ref'), pert.get('reset_pars'), pert.get('in_pars'), pert.get('own_dt')))
         elif k == 'ghost_connector':
-            ec.append(make_ghost('connector', pert['fams'], pert['name'], pert.get('hold_ref')))
+            ec.append(make_ghost('connector', pert['fams'], pert['name'], pert.get('hold_ref'), pert.get('reset_pars'), pert.get('in_pars'), pert.get('own_dt')))
         elif k == 'extra_disease':
             d = dict(type=pert['type'], name=pert['name'], beta=pert['beta'], init_prev=0.1)
             if pert['type'] == 'sir': d['p_death'] = 0
@@ -168,30 +182,32 @@ def applicable(cfg, pert):
     return True
 
 
+def fresh_prefix(key, base_parts):
+    """ the shortest token prefix of `key` that is a prefix of no base key (None if the whole key is one) """
+    parts = key.split('_')
+    for n in range(1, len(parts)):
+        pre = parts[:n]
+        if not any(bp[:n] == pre for bp in base_parts):
+            return pre
+    return None
+
+
 def blocks(base_keys, pert_keys):
-    """ maximal runs of new entries in the perturbed registry: [(position in the growing registry, [keys])] """
+    """ maximal runs of consecutive new entries of the perturbed registry that live under ONE fresh prefix:
+        [(position in the growing registry, prefix tokens, [keys])] """
     bset = set(base_keys)
+    base_parts = [k.split('_') for k in base_keys]
     out = []; cur = None
     for i, k in enumerate(pert_keys):
         if k in bset:
-            cur = None
-        else:
-            if cur is None:
-                cur = [i, []]; out.append(cur)
-            cur[1].append(k)
+            cur = None; continue
+        pre = fresh_prefix(k, base_parts)
+        if pre is None:
+            pre = k.split('_')[:-1]       # (no fresh prefix: reported as a clash by the model)
+        if cur is None or cur[1] != pre:
+            cur = [i, pre, []]; out.append(cur)
+        cur[2].append(k)
     return out
-
-
-def common_prefix(keys):
-    parts = [k.split('_') for k in keys]
-    pre = []
-    for xs in zip(*parts):
-        if len(set(xs)) == 1: pre.append(xs[0])
-        else: break
-    # never take a whole key as prefix when there is a single key: leave the last element as the sub-path
-    if pre and all(len(p) == len(pre) for p in parts):
-        pre = pre[:-1]
-    return pre
 
 
 def correspond(ctx):
@@ -227,8 +243,7 @@ def correspond(ctx):
             # (1) registry = base + inserted blocks under fresh prefixes (model)
             bl = blocks(ka, kb)
             seq = ['reg ' + ' '.join(ka)] if ka else ['reg']
-            for pos, keys in bl:
-                pre = common_prefix(keys)
+            for pos, pre, keys in bl:
                 subs = ['_'.join(k.split('_')[len(pre):]) or '.' for k in keys]
                 seq.append(f"add {pos} {'_'.join(pre)} " + ' '.join(subs))
             plan.append(dict(cfg=cfg, pert=pert, off=len(lines), n=len(seq), kb=kb, ka=ka))
@@ -284,6 +299,15 @@ def search(ctx):
             cfg['diseases'] = [dict(type='sir', beta=0.3, init_prev=0.1, dur_inf=5, p_death=0)] + [d for d in cfg['diseases'] if d['type'] != 'sir']
             cfg['interventions'] = [dict(BASE_VX)]
             pert = dict(kind='zero_vx', mode=['zero_prob', 'zero_efficacy'][it], before=True)
+        if it in (2, 3):
+            # always exercised: a base that consumes the process-global NumPy stream (crude births, odd contact counts) and a
+            # sampling-only component whose SciPy-sampled distributions get their parameters re-set before every draw
+            cfg = dict(n_agents=150, rand_seed=100 + it, unit='year', dt=1.0, start=2000, dur=6,
+                       diseases=[dict(type='sis', beta=0.3, init_prev=0.1, dur_inf=5, waning=0.05)],
+                       networks=[dict(type='random', n_contacts=5, dur=0)],
+                       demographics=[dict(type='births', birth_rate=40), dict(type='deaths', death_rate=20)])
+            pert = dict(kind=['ghost_intervention', 'ghost_analyzer'][it - 2], fams=['weibull', 'gamma', 'histogram', 'normal', 'expon'], name='ghost',
+                        second=False, hold_ref=False, reset_pars=True, in_pars=(it == 3), own_dt=None)
         if not applicable(cfg, pert):
             cfg['diseases'] = [dict(type='sir', beta=0.3, init_prev=0.1, dur_inf=5, p_death=0)] + [d for d in cfg['diseases'] if d['type'] != 'sir']
         try:
